@@ -151,6 +151,25 @@ def main():
             run.violation("distinct topologies have distinct ranks", {"n": n}, "collision", "injective")
         if run.violations:
             break
+    # random shape ranks for 10..13 leaves (first labelling): rank(unrank(r)) == r and distinct shapes
+    for n in (10, 11, 12, 13):
+        total = comb.num_shapes(n)
+        seen = {}
+        for _ in range(run.budget(120, 1500)):
+            r = rng.randrange(total)
+            tr = tskit.Tree.unrank(n, (r, 0))
+            run.case()
+            got = tuple(tr.rank())
+            if got != (r, 0):
+                run.violation("rank(unrank(n, (r, 0))) == (r, 0)", {"n": n, "rank": r}, got, (r, 0))
+                break
+            sh = shape(canon(tr, tr.root))
+            if sh in seen and seen[sh] != r:
+                run.violation("distinct shape ranks give distinct shapes", {"n": n}, (seen[sh], r), "distinct")
+                break
+            seen[sh] = r
+        if run.violations:
+            break
     run.sample({"n_max": nmax})
     run.finish()
 
